@@ -6,13 +6,24 @@ from pathlib import Path
 
 VERIF = Path(__file__).resolve().parents[1]
 
-# property -> (technique, level text, level note, design ref)
-CLAIMED = {
-    "C08": ("Lean 4 proof (refinement of a checked-memory model of Buffer to a byte queue, invariant by induction over operation lists) + differential correspondence model vs real Buffer.hpp",
-            "Theorems over all operation histories of the Lean model of Buffer (byte-queue refinement, terminator, no out-of-range access); the model is tied to the current Buffer.hpp on every run by executing identical op lines on both (exhaustive small scope + random histories, ASan/UBSan, guard bytes) and by an independent reference byte queue.",
-            "Trusted: Lean kernel + the three standard axioms; hand translation of Buffer.hpp into the model (validated by the correspondence run, not proved); checked-memory abstraction (separate blocks, no pointer arithmetic across blocks); allocation never fails; attached ranges are used by one buffer at a time.",
-            "DESIGN.md 3/C08"),
-}
+import importlib
+import sys
+sys.path.insert(0, str(VERIF / "tools"))
+
+
+def claimed():
+    """property -> (technique, text, note, design_ref), read from the MANIFEST dict of each area module"""
+    out = {}
+    for f in sorted((VERIF / "tools" / "areas").glob("*.py")):
+        if f.stem.startswith("_"):
+            continue
+        mod = importlib.import_module("areas." + f.stem)
+        for pid, e in getattr(mod, "MANIFEST", {}).items():
+            out[pid] = (e["technique"], e["text"], e["note"], e.get("design_ref", "DESIGN.md section 3"))
+    return out
+
+
+CLAIMED = claimed()
 
 REASON_PENDING = "check not built yet in this round; see DESIGN.md section 3 for the planned model and theorems"
 
